@@ -13,7 +13,7 @@ Actions ==
   \cup UNION {{[op |-> "FWakeByRef", t |-> t, w |-> w] : w \in Held(t)} : t \in Thread}
   \cup UNION {{[op |-> "FWakeBegin", t |-> t, w |-> w] : w \in Held(t)} : t \in Thread}
   \cup {[op |-> "FWakeEnd", t |-> t] : t \in {u \in Thread : waking[u] # <<>>}}
-  \cup UNION {{[op |-> "FDrop", t |-> t, w |-> w] : w \in Held(t)} : t \in Thread}
+  \cup UNION {{[op |-> "FDrop", t |-> t, w |-> w, how |-> hw] : w \in Held(t), hw \in {"plain", "unwind"}} : t \in Thread}
   \cup UNION {{[op |-> "Give", t |-> t, w |-> w, u |-> u] : w \in Held(t), u \in Thread \ {t}} : t \in Thread}
 
 Next == \E e \in Actions : Do(e)
